@@ -19,6 +19,8 @@ def mk_object(kind, history, nsym=2):
     TOTAL = NA**nsym * NB * (6 if uses_slice else 1)
     SLICES = [(i, j) for i in range(3) for j in range(i + 1, 4)]
 
+    NBLOCKS = W.nblocks(TOTAL)
+
     def check(code: int) -> bool:
         """
         pre: 0 <= code < TOTAL
@@ -87,6 +89,8 @@ def mk_table_object(history):
     """a 3-row table with symbolic small-integer cells (and an empty cell), after a row-model operation, through JSON and back"""
     TOTAL = 3**2 * 2**3  # x of the third row is fixed (1): ties with either of the other rows still occur
 
+    NBLOCKS = W.nblocks(TOTAL)
+
     def check(code: int) -> bool:
         """
         pre: 0 <= code < TOTAL
@@ -138,6 +142,8 @@ def mk_table_object(history):
 def mk_dictarray_object(kind):
     """DictArray / DistanceMatrix with symbolic small-integer cells through JSON and back"""
     TOTAL = 3**3
+
+    NBLOCKS = W.nblocks(TOTAL)
 
     def check(code: int) -> bool:
         """
